@@ -15,16 +15,26 @@ import json
 # canonical tree form
 
 
-def canon(node, _depth=0):
+class _Budget:
+    def __init__(self, n):
+        self.n = n
+
+
+def canon(node, _depth=0, _budget=None):
     """[type, value-hex, obfuscation, start, end, [children...]] recursively.
 
     Reads only the six data fields; never calls repo code (no __eq__, no
-    __iter__, no flatten)."""
-    if _depth > 400:
-        return ["<too-deep>"]
+    __iter__, no flatten).  Depth and size are capped so that a cyclic or
+    exploding structure (possible only in a broken tree) still has a finite,
+    deterministic canonical form."""
+    if _budget is None:
+        _budget = _Budget(200000)
+    _budget.n -= 1
+    if _depth > 200 or _budget.n < 0:
+        return ["<too-deep-or-too-big>", "", "", 0, 0, []]
     value = node.value
     if not isinstance(value, (bytes, bytearray)):
-        vhex = "!" + type(value).__name__ + ":" + repr(value)
+        vhex = "!" + type(value).__name__ + ":" + repr(value)[:200]
     else:
         vhex = bytes(value).hex()
     return [
@@ -33,20 +43,23 @@ def canon(node, _depth=0):
         node.obfuscation,
         node.start,
         node.end,
-        [canon(c, _depth + 1) for c in node.children],
+        [canon(c, _depth + 1, _budget) for c in node.children],
     ]
 
 
-def parent_links_ok(node, expect_parent="any", _depth=0):
+def parent_links_ok(node, expect_parent="any", _depth=0, _budget=None):
     """Every child's parent is the node that lists it (identity)."""
-    if _depth > 400:
+    if _budget is None:
+        _budget = _Budget(200000)
+    _budget.n -= 1
+    if _depth > 200 or _budget.n < 0:
         return True
     if expect_parent != "any" and node.parent is not expect_parent:
         return False
     for c in node.children:
         if c.parent is not node:
             return False
-        if not parent_links_ok(c, "any", _depth + 1):
+        if not parent_links_ok(c, "any", _depth + 1, _budget):
             return False
     return True
 
@@ -111,7 +124,7 @@ def canon_diff(a, b, path="root"):
 
 
 def _cval(c) -> bytes:
-    return bytes.fromhex(c[1])
+    return bytes.fromhex(c[1]) if not c[1].startswith("!") else b""
 
 
 def ref_squash(data: bytes, children) -> bytes:
